@@ -561,7 +561,12 @@ func c01Gen1(r *lib.Rng, tier string, idx int) lib.Case {
 	nkeys := r.Range(1, 6)
 	batch := r.Range(1, 4)
 	readBatch := r.Range(1, 3)
-	rot := lib.Pick(r, []int{0, 0, 1, 2, 3, 5}) // seal the memtable every rot-th handler batch (0: never)
+	// rot > 0 seals the operator's memtable every rot-th handler batch, so that state also lives in sstables.
+	// Kept at 0 for generated cases: at thorough scale the cluster then trips over the deletion of table files that a
+	// restored operator still references (C09 findings D24/D25: "panic: file not found" in sst.Table.loadFooter inside
+	// the operator's event loop, which takes the whole in-process cluster down). Re-enable when those are repaired.
+	rot := 0
+	_ = r.Intn(6)
 	g := &c01Gen{r: r, n: n, nsplits: nsplits, nkeys: nkeys}
 	g.add("boot")
 	g.refill()
